@@ -11,10 +11,57 @@ import re
 _COPIA_RE = re.compile(r'\bcopia::')
 
 
+_ALIASES = []      # [(compiled regex, replacement)]: inline modules flattened into the file module that contains them
+
+
 def norm(path):
     if path is None:
         return None
-    return _COPIA_RE.sub('', path)
+    path = _COPIA_RE.sub('', path)
+    for rx, rep in _ALIASES:
+        path = rx.sub(rep, path)
+    return path
+
+
+def _file_module(f):
+    """module path a source file stands for: src/bin/copia/serve.rs -> serve, src/delta.rs -> delta (crate roots -> None)"""
+    m = re.match(r'^src/(?:bin/[^/]+/)?(.+)\.rs$', f or '')
+    if not m:
+        return None
+    parts = m.group(1).split('/')
+    if parts[-1] == 'mod':
+        parts = parts[:-1]
+    if not parts or parts == ['main'] or parts == ['lib']:
+        return None
+    return '::'.join(parts)
+
+
+def set_inline_module_aliases(raw_bodies):
+    """`mod paths { pub(super) fn safe_join .. }` inside serve.rs: the items keep the names they would have without the inner
+    module (serve::paths::safe_join -> serve::safe_join) when that is unambiguous - moving a private function into a nested
+    module of the same file changes no behaviour and must not move an anchor."""
+    del _ALIASES[:]
+    paths = {_COPIA_RE.sub('', rb['path']) for rb in raw_bodies}
+    found = set()
+    for rb in raw_bodies:
+        P = _COPIA_RE.sub('', rb['path'])
+        fm = _file_module(rb.get('file'))
+        if not fm or not P.startswith(fm + '::') or P.startswith('<'):
+            continue
+        segs = P[len(fm) + 2:].split('::')
+        prefix = fm
+        for sgm in segs[:-1]:
+            if not re.match(r'^[a-z_][a-z0-9_]*$', sgm) or sgm == 'tests' or (prefix + '::' + sgm) in paths:
+                break
+            found.add((prefix, sgm))
+            prefix = prefix + '::' + sgm
+            break      # one level is what a refactor introduces; deeper nesting keeps its inner names
+    for prefix, sgm in sorted(found):
+        old_p, new_p = '%s::%s::' % (prefix, sgm), prefix + '::'
+        moved = [x for x in paths if x.startswith(old_p)]
+        if any((new_p + x[len(old_p):]) in paths for x in moved):
+            continue        # would collide with an item of the outer module
+        _ALIASES.append((re.compile(r'(?<![A-Za-z0-9_:])' + re.escape(old_p)), new_p))
 
 
 class Body:
@@ -64,11 +111,14 @@ class Facts:
         self.formats = []
         self.crates = []
         self.inlined = {}
+        loaded = []
         for fn in sorted(os.listdir(directory)):
             if not fn.endswith('.json'):
                 continue
             with open(os.path.join(directory, fn)) as fh:
-                d = json.load(fh)
+                loaded.append(json.load(fh))
+        set_inline_module_aliases([rb for d in loaded for rb in d['bodies']])
+        for d in loaded:
             crate = 'bin' if 'Executable' in d['crate_types'] else 'lib'
             self.crates.append(crate)
             for rb in d['bodies']:
